@@ -136,6 +136,7 @@ type Engine struct {
 	uniqueImpl func(*types.Func) *ssa.Function // the single production implementation of an interface method in the module, if any
 	maxRec     int              // how many recursive activations of one function may be inlined
 	stub map[string][]*Term // callee -> fixed results (composition with an outcome class of the callee)
+	hofMethod  map[string]string // higher-order callee taking an interface value -> the method of it that is run
 	hof        map[string]int   // opaque higher-order callee -> index of the function argument it runs (modelled as one synchronous call)
 	bind       map[string]*Term // term key -> replacement (composition presets)
 	stats      struct{ paths, pruned, loopcut int }
@@ -559,7 +560,7 @@ func (e *Engine) newFrame(fn *ssa.Function, caller *frame, d deferred, call ssa.
 		if i < len(args) {
 			nf.env[p] = args[i]
 		} else {
-			nf.env[p] = mk("unknown", "missingarg", 0, p.Type())
+			nf.env[p] = mk("param", p.Name(), 0, p.Type()) // run by a higher-order callee with arguments of its own: symbolic
 		}
 	}
 	if d.closure != nil {
@@ -853,7 +854,19 @@ func (e *Engine) doCall(s *state, fr *frame, v *ssa.Call, c *ssa.CallCommon) boo
 		fa := d.args[idx]
 		var opFn *ssa.Function
 		od := deferred{pos: v.Pos()}
-		if fa != nil && (fa.Kind == "closure" || fa.Kind == "func") {
+		viaMethod := false
+		if e.hofMethod[d.callee] != "" {
+			ai := idx
+			if d.recv != nil && !c.IsInvoke() {
+				ai++
+			}
+			if ai < len(c.Args) {
+				if _, ok := c.Args[ai].(*ssa.MakeInterface); ok {
+					viaMethod = true // an interface value: its method is run (below), even when the value is itself a function
+				}
+			}
+		}
+		if !viaMethod && fa != nil && (fa.Kind == "closure" || fa.Kind == "func") {
 			opFn = e.funcByName[fa.Name]
 			if opFn != nil && fa.Kind == "closure" {
 				od.closure = fa
@@ -862,6 +875,35 @@ func (e *Engine) doCall(s *state, fr *frame, v *ssa.Call, c *ssa.CallCommon) boo
 					od.closure = nil
 					if obj, ok := opFn.Object().(*types.Func); ok {
 						opFn = e.prog.FuncValue(obj)
+					}
+				}
+			}
+		}
+		if opFn == nil && fa != nil && e.hofMethod[d.callee] != "" {
+			// the argument is an interface value of a statically known concrete type (http.Handler built from a named
+			// function type, a struct, …): the higher-order callee runs that type's method
+			ai := idx
+			if d.recv != nil && !c.IsInvoke() {
+				ai++
+			}
+			if ai < len(c.Args) {
+				var ct types.Type
+				if mi, ok := c.Args[ai].(*ssa.MakeInterface); ok {
+					ct = mi.X.Type()
+				}
+				if ct != nil {
+					if tn, ok := ct.(*types.Named); ok && tn.Obj().Pkg() != nil {
+						if m := e.prog.LookupMethod(ct, tn.Obj().Pkg(), e.hofMethod[d.callee]); m != nil {
+							opFn = m
+							od.recv = fa
+						}
+					} else if pt, ok := ct.(*types.Pointer); ok {
+						if tn, ok := pt.Elem().(*types.Named); ok && tn.Obj().Pkg() != nil {
+							if m := e.prog.LookupMethod(ct, tn.Obj().Pkg(), e.hofMethod[d.callee]); m != nil {
+								opFn = m
+								od.recv = fa
+							}
+						}
 					}
 				}
 			}
